@@ -74,6 +74,13 @@ def gen_cases(ctx):
             if rng.random() < 0.4:
                 names.append(rng.choice(gen.FILTER_NAMES + gen.CUSTOM_FILTERS))
             c["filter"] = {"names": names, "form": "custom"}
+            if rng.random() < 0.3:
+                # a built-in filter followed by a user filter that may answer [] even for a
+                # single candidate: every member of a composite is applied, in order
+                first = rng.choice([f for f in gen.FILTER_NAMES
+                                    if f != "dominated_operations" or not gen.has_zero(c["instance"])]
+                                   + gen.CUSTOM_FILTERS)
+                c["filter"] = {"names": [first, gen.HOLDING_FILTER], "form": "custom"}
         c["kind"] = "history"
         c["resets"] = rng.random() < 0.25
         # the unscheduled-operations observer may also be created in the middle of a history
